@@ -867,7 +867,43 @@ func genNewCode6(r *Rng) []byte {
 	return b
 }
 
+// genNameWire6: the name-bearing options (domain search list 24, client FQDN 39, NTP
+// server FQDN sub-option 56/3) carrying every wire shape of the label stream's
+// generator - compression pointers, a trailing partial name, the root name, long names -
+// and, one time in four, a '.' octet inside a label (legal on the wire; it reads as two
+// labels once the name is text).  The decoder keeps the bytes it read; whatever
+// re-encodes names from their text instead changes such a message (seeded change C06-11).
+func genNameWire6(r *Rng) []byte {
+	name, _ := genLabelWire(r)
+	if r.Chance(1, 4) && len(name) > 2 && name[0] > 1 && int(name[0]) < len(name) && name[0] < 64 {
+		name = append([]byte{}, name...)
+		name[1+r.Intn(int(name[0]))] = '.'
+	}
+	if len(name) > 1000 {
+		name = name[:1000]
+	}
+	b := []byte{byte(r.Range(1, 11)), 5, 5, 5}
+	switch r.Intn(3) {
+	case 0:
+		b = append(b, 0, 24, byte(len(name)>>8), byte(len(name)))
+		b = append(b, name...)
+	case 1:
+		b = append(b, 0, 39, byte((len(name)+1)>>8), byte(len(name)+1), byte(r.Intn(8)))
+		b = append(b, name...)
+	default:
+		b = append(b, 0, 56, byte((len(name)+4)>>8), byte(len(name)+4), 0, 3, byte(len(name)>>8), byte(len(name)))
+		b = append(b, name...)
+	}
+	if r.Chance(1, 3) {
+		b = append(b, 0, 8, 0, 2, 0, byte(r.Intn(256)))
+	}
+	return b
+}
+
 func genWire6(r *Rng) ([]byte, string) {
+	if r.Chance(1, 14) {
+		return genNameWire6(r), "name-wire-in-option"
+	}
 	if len(newCodes6) > 0 && r.Chance(1, 6) {
 		return genNewCode6(r), "code-new-in-the-source"
 	}
